@@ -66,6 +66,10 @@ def run_case(case, rng):
         # discounted, but only just: a discount rate within 1e-5 of 1 is still a discount rate (finite values everywhere)
         sp.gamma = rng.choice([1 - 1e-6, 1 - 1e-7, 0.99999])
         sp.meta["discount_just_below_one"] = True
+    if fam == "any" and rng.random() < 0.08:
+        # fully myopic: a discount rate of 0 (the value of a state is its expected immediate reward), spelled in several ways
+        sp.gamma = rng.choice([0, 0.0, False, np.float64(0.0), np.int64(0)])
+        sp.meta["discount_zero_as"] = type(sp.gamma).__name__
     corridor = rng.random() < 0.08
     if corridor:
         fam = "corridor"
